@@ -61,6 +61,15 @@ def subs : E → List E
   | e@(op1 _ _ _ _ a) => e :: a.subs
   | e@(op2 _ _ _ _ a b) => e :: (a.subs ++ b.subs)
   | e@(op3 _ _ _ _ a b c) => e :: (a.subs ++ b.subs ++ c.subs)
+/-- Sub-expressions the XLA printers actually print: the `like` of a constant is only named
+(`ScalarLike(like.ref, ..)`) or used for its type, never printed. -/
+def xsubs : E → List E
+  | e@(sym ..) => [e]
+  | e@(const ..) => [e]
+  | e@(constE _ _ _ val _) => e :: val.xsubs
+  | e@(op1 _ _ _ _ a) => e :: a.xsubs
+  | e@(op2 _ _ _ _ a b) => e :: (a.xsubs ++ b.xsubs)
+  | e@(op3 _ _ _ _ a b c) => e :: (a.xsubs ++ b.xsubs ++ c.xsubs)
 def size : E → Nat
   | sym .. => 1
   | const _ _ _ _ like => like.size + 1
@@ -521,13 +530,63 @@ def finishX (types : List (String × String)) (need : String → Bool) (r : Stri
     | .ok t => .ok (.var r, { st with stmts := st.stmts ++ [⟨t, r, x⟩], defined := r :: st.defined })
   else .ok (x, st)
 
-/-- cpp `make_constant(like, value)`. -/
-def cppConst (types : List (String × String)) (likeTy : Ty) (s : String) (x : X) : Except Err X :=
+/-- cpp `make_constant`: a value whose text is `inf` / `-inf` becomes the infinity of the like's type. -/
+def pickInf (t : String) (x : X) : X :=
+  if x.text == "inf" then .infV false t else if x.text == "-inf" then .infV true t else x
+
+/-- cpp `make_constant(like, value)` (`str(value)` is the text of `x`). -/
+def cppConst (types : List (String × String)) (likeTy : Ty) (x : X) : Except Err X :=
   match getTy types likeTy with
   | .error e => .error e
-  | .ok t => .ok (if s == "inf" then .infV false t else if s == "-inf" then .infV true t else x)
+  | .ok t => .ok (pickInf t x)
 
 def lateOf (st : XSt) (r : String) : Nat := if r ∈ st.defined then 0 else 1
+
+/-- `self.make_constant(like, value)` of the printer instance that runs: xla wraps the value text in
+`ScalarLike(like.ref, ..)` (whether or not `like.ref` is defined), cpp prints the value itself. -/
+def wrapX (T : XTables) (mode : Mode) (like : E) (st : XSt) (x : X) (warn : Nat) : Except Err (X × XSt) :=
+  match mode with
+  | .main => .ok (.scalarLike like.ref x, { st with late := st.late + lateOf st like.ref, warnConst := st.warnConst + warn })
+  | .cpp => match cppConst T.types like.ty x with
+    | .error e => .error e
+    | .ok x' => .ok (x', { st with warnConst := st.warnConst + warn })
+
+/-- The value text of a constant whose value is not an expression, and the number of warnings. -/
+def constVal (T : XTables) (mode : Mode) (ty : Ty) (v : CVal) : Except Err (X × Nat) :=
+  match v with
+  | .lit fmt str =>
+    (match mode with
+     | .main => .ok (.litV fmt, 0)       -- xla: f"ScalarLike({like.ref}, {value})"
+     | .cpp => .ok (.litV str, 0))       -- cpp: str(value)
+  | .named s =>
+    match findRow T.consts s with
+    | none => .ok (.unkV s, 1)           -- warning, value printed verbatim
+    | some row =>
+      match row.raw with
+      | none => .ok (.unkV s, 1)
+      | some _ =>
+        match getTy T.types ty with
+        | .error e => .error e
+        | .ok t =>
+          match piecesCheck row.pieces 0 ["type"] with
+          | .error e => .error e
+          | .ok _ => .ok (.namedV s row.pieces t, 0)
+
+/-- The constant branch of `PrinterBase.tostring` (value not an expression): the text of the
+constant, before the optional assignment.  `T` = tables of the printer instance that runs. -/
+def constX (T : XTables) (mode : Mode) (ty : Ty) (v : CVal) (like : E) (st : XSt) : Except Err (X × XSt) :=
+  match constVal T mode ty v with
+  | .error e => .error e
+  | .ok (x, warn) => wrapX T mode like st x warn
+
+/-- `kind_to_target.get(kind, NotImplemented)`; NotImplemented raises. -/
+def rowFor (T : XTables) (k : String) : Except Err TRow :=
+  match findRow T.kinds k with
+  | none => .error .notImpl
+  | some row =>
+    match row.raw with
+    | none => .error .notImpl
+    | some _ => .ok row
 
 /-- `PrinterBase.tostring(expr)` for non-apply expressions; `mode` = which printer instance runs
 (the xla printer, or its `constant_printer`, the cpp printer, sharing `defined_refs` and
@@ -538,47 +597,9 @@ def prX (tb : XTabs) (need : String → Bool) (mode : Mode) : E → XSt → Exce
     finishX (tb.of mode).types need r ty (.name name) st
   | .const r _ ty v like, st =>
     if r ∈ st.defined then (if need r then .ok (.var r, st) else .error .assertion) else
-    let T := tb.of mode
-    match v with
-    | .lit fmt str =>
-      match mode with
-      | .main => finishX T.types need r ty (.scalarLike like.ref (.litV fmt)) { st with late := st.late + lateOf st like.ref }
-      | .cpp =>
-        match cppConst T.types like.ty str (.litV str) with
-        | .error e => .error e
-        | .ok x => finishX T.types need r ty x st
-    | .named s =>
-      match findRow T.consts s with
-      | some row =>
-        match row.raw with
-        | none =>
-          -- NotImplemented entry: warning, value printed verbatim
-          (match mode with
-           | .main => finishX T.types need r ty (.scalarLike like.ref (.unkV s))
-                        { st with late := st.late + lateOf st like.ref, warnConst := st.warnConst + 1 }
-           | .cpp => match cppConst T.types like.ty s (.unkV s) with
-              | .error e => .error e
-              | .ok x => finishX T.types need r ty x { st with warnConst := st.warnConst + 1 })
-        | some _ =>
-          match getTy T.types ty with
-          | .error e => .error e
-          | .ok t =>
-            match piecesCheck row.pieces 0 ["type"] with
-            | .error e => .error e
-            | .ok _ =>
-              match mode with
-              | .main => finishX T.types need r ty (.scalarLike like.ref (.namedV s row.pieces t))
-                           { st with late := st.late + lateOf st like.ref }
-              | .cpp => match cppConst T.types like.ty (fmtPieces row.pieces [] (fun _ => t)) (.namedV s row.pieces t) with
-                 | .error e => .error e
-                 | .ok x => finishX T.types need r ty x st
-      | none =>
-        match mode with
-        | .main => finishX T.types need r ty (.scalarLike like.ref (.unkV s))
-                     { st with late := st.late + lateOf st like.ref, warnConst := st.warnConst + 1 }
-        | .cpp => match cppConst T.types like.ty s (.unkV s) with
-           | .error e => .error e
-           | .ok x => finishX T.types need r ty x { st with warnConst := st.warnConst + 1 }
+    match constX (tb.of mode) mode ty v like st with
+    | .error e => .error e
+    | .ok (x, st1) => finishX (tb.of mode).types need r ty x st1
   | .constE r _ ty val like, st =>
     if r ∈ st.defined then (if need r then .ok (.var r, st) else .error .assertion) else
     match mode with
@@ -590,35 +611,50 @@ def prX (tb : XTabs) (need : String → Bool) (mode : Mode) : E → XSt → Exce
         finishX tb.main.types need r ty (.scalarLike like.ref xv) { st1 with late := st1.late + lateOf st1 like.ref }
   | .op1 r _ ty k a, st =>
     if r ∈ st.defined then (if need r then .ok (.var r, st) else .error .assertion) else
-    let T := tb.of mode
-    match findRow T.kinds k with
-    | none => .error .notImpl
-    | some row =>
-      match row.raw with
-      | none => .error .notImpl
-      | some _ =>
-        match getTy T.types a.ty with
+    match rowFor (tb.of mode) k with
+    | .error e => .error e
+    | .ok row =>
+      match getTy (tb.of mode).types a.ty with
+      | .error e => .error e
+      | .ok t0 =>
+        match prX tb need mode a st with
+        | .error e => .error e
+        | .ok (xa, st1) =>
+          match piecesCheck row.pieces 1 ["typeof_0"] with
+          | .error e => .error e
+          | .ok _ => finishX (tb.of mode).types need r ty (.t1 row.pieces t0 xa) st1
+  | .op2 r _ ty k a b, st =>
+    if r ∈ st.defined then (if need r then .ok (.var r, st) else .error .assertion) else
+    match rowFor (tb.of mode) k with
+    | .error e => .error e
+    | .ok row =>
+      match getTy (tb.of mode).types a.ty with
+      | .error e => .error e
+      | .ok _ =>
+        match getTy (tb.of mode).types b.ty with
         | .error e => .error e
         | .ok t0 =>
           match prX tb need mode a st with
           | .error e => .error e
           | .ok (xa, st1) =>
-            match piecesCheck row.pieces 1 ["typeof_0"] with
+            match prX tb need mode b st1 with
             | .error e => .error e
-            | .ok _ => finishX T.types need r ty (.t1 row.pieces t0 xa) st1
-  | .op2 r _ ty k a b, st =>
+            | .ok (xb, st2) =>
+              match piecesCheck row.pieces 2 ["typeof_0"] with
+              | .error e => .error e
+              | .ok _ => finishX (tb.of mode).types need r ty (.t2 row.pieces t0 xa xb) st2
+  | .op3 r _ ty k a b c, st =>
     if r ∈ st.defined then (if need r then .ok (.var r, st) else .error .assertion) else
-    let T := tb.of mode
-    match findRow T.kinds k with
-    | none => .error .notImpl
-    | some row =>
-      match row.raw with
-      | none => .error .notImpl
-      | some _ =>
-        match getTy T.types a.ty with
+    match rowFor (tb.of mode) k with
+    | .error e => .error e
+    | .ok row =>
+      match getTy (tb.of mode).types a.ty with
+      | .error e => .error e
+      | .ok _ =>
+        match getTy (tb.of mode).types b.ty with
         | .error e => .error e
         | .ok _ =>
-          match getTy T.types b.ty with
+          match getTy (tb.of mode).types c.ty with
           | .error e => .error e
           | .ok t0 =>
             match prX tb need mode a st with
@@ -627,39 +663,12 @@ def prX (tb : XTabs) (need : String → Bool) (mode : Mode) : E → XSt → Exce
               match prX tb need mode b st1 with
               | .error e => .error e
               | .ok (xb, st2) =>
-                match piecesCheck row.pieces 2 ["typeof_0"] with
+                match prX tb need mode c st2 with
                 | .error e => .error e
-                | .ok _ => finishX T.types need r ty (.t2 row.pieces t0 xa xb) st2
-  | .op3 r _ ty k a b c, st =>
-    if r ∈ st.defined then (if need r then .ok (.var r, st) else .error .assertion) else
-    let T := tb.of mode
-    match findRow T.kinds k with
-    | none => .error .notImpl
-    | some row =>
-      match row.raw with
-      | none => .error .notImpl
-      | some _ =>
-        match getTy T.types a.ty with
-        | .error e => .error e
-        | .ok _ =>
-          match getTy T.types b.ty with
-          | .error e => .error e
-          | .ok _ =>
-            match getTy T.types c.ty with
-            | .error e => .error e
-            | .ok t0 =>
-              match prX tb need mode a st with
-              | .error e => .error e
-              | .ok (xa, st1) =>
-                match prX tb need mode b st1 with
-                | .error e => .error e
-                | .ok (xb, st2) =>
-                  match prX tb need mode c st2 with
+                | .ok (xc, st3) =>
+                  match piecesCheck row.pieces 3 ["typeof_0"] with
                   | .error e => .error e
-                  | .ok (xc, st3) =>
-                    match piecesCheck row.pieces 3 ["typeof_0"] with
-                    | .error e => .error e
-                    | .ok _ => finishX T.types need r ty (.t3 row.pieces t0 xa xb xc) st3
+                  | .ok _ => finishX (tb.of mode).types need r ty (.t3 row.pieces t0 xa xb xc) st3
 
 structure XOut where
   tmplParam : Option String
@@ -848,14 +857,15 @@ def trustedCppRaw : List (String × String) := [
 
 /-- A row of an XLA-style table is right: the stored pieces re-render to the raw template (the
 translator's parse is faithful) and the template has the specified shape. -/
+def rowSpec (spec : List (String × Shape)) (rawSpec : List (String × String)) (k : String) (ps : List Piece) : Bool :=
+  match rawSpec.lookup k with
+  | some want => renderPieces ps == want
+  | none => spec.lookup k == some (shapeOf ps) && shapeOf ps != .other
+
 def xRowOk (spec : List (String × Shape)) (rawSpec : List (String × String)) (row : TRow) : Bool :=
   match row.raw with
   | none => row.pieces == []
-  | some raw =>
-    renderPieces row.pieces == raw &&
-    (match rawSpec.lookup row.kind with
-     | some want => raw == want
-     | none => spec.lookup row.kind == some (shapeOf row.pieces) && shapeOf row.pieces != .other)
+  | some raw => renderPieces row.pieces == raw && rowSpec spec rawSpec row.kind row.pieces
 
 def trustedCppConst : List (String × String) := [
   ("smallest", "std::numeric_limits<{type}>::min()"), ("largest", "std::numeric_limits<{type}>::max()"),
